@@ -17,7 +17,7 @@ EXPLANATION = (
     "path: the sum of all objective values, kinetic energies and the buffer is unchanged (1e-9 relative), no kinetic "
     "energy or buffer is negative, exactly the reactant and product populations are consumed from the stack, there is "
     "one molecule record per individual afterwards and the records that were not part of the reaction stay at the "
-    "index of their individual (identity tracked through each record's hit counter). K4: none of the updates "
+    "index of their individual (identity tracked through each record's hit counter). Every configuration is evaluated twice: with fresh records (remembered best = the current individual) and with records that remember a strictly better individual than the one they hold (the history after an accepted uphill move) - the energy of a reactant is that of the individual it holds NOW. (R5) the base case: ChemicalReactionInit::execute leaves exactly one fresh record (configured kinetic energy, no hits) per individual of the current population, in order, also when records of an earlier initialisation are still stored, and leaves the stack alone. K4: none of the updates "
     "re-acquires a state type whose guard it still holds. (INIT) init() evaluated with every field of self a distinct symbol inserts exactly the state types of a reviewed table, under the component's own instantiation, each built from exactly the documented field or empty / zero. NOT decided: conservation as an arithmetic identity over "
     "arbitrary floats (only at the sampled configurations), the reaction-selection criteria's probabilities.")
 ASSUMPTIONS = ["random draws lie in their documented ranges (representatives 0.25 / 0.5 are used)"]
@@ -41,7 +41,7 @@ def total_energy(pop, reaction, buffer):
     return sum(obj(x) for x in pop) + sum(m.fields[0] for m in reaction) + buffer
 
 
-def evaluate(F, fn, me, pop, ke, reactants, products, buffer, fields_mol):
+def evaluate(F, fn, me, pop, ke, reactants, products, buffer, fields_mol, best_delta=0.0, stale=None):
     sf = F.field_index(POP, "stack")
     popsym = Sym("populations", {sf: Sym("stack")})
     home_buf = 10001
@@ -51,7 +51,9 @@ def evaluate(F, fn, me, pop, ke, reactants, products, buffer, fields_mol):
         vals[fields_mol["kinetic_energy"]] = float(k)
         vals[fields_mol["num_hit"]] = 10 * (i + 1)
         vals[fields_mol["min_hit"]] = 0
-        vals[fields_mol["best"]] = x
+        # the record's remembered best: the individual itself on a fresh record, or a strictly better one it held earlier
+        # (the history after an accepted uphill collision)
+        vals[fields_mol["best"]] = x if not best_delta else indiv("b%d" % i, obj(x) - best_delta)
         mols.append(Agg("adt", MOL, "Molecule", vals))
 
     def bm(interp, env, f, args):
@@ -84,6 +86,9 @@ def evaluate(F, fn, me, pop, ke, reactants, products, buffer, fields_mol):
     it.extra_env = {home_buf: float(buffer)}
     it.init_state = {"stack": (Vec("pop"), Vec("reactants"), Vec("products")), "next_vec": 0,
                      "heap": {"pop": tuple(pop), "reactants": tuple(reactants), "products": tuple(products), "reaction": tuple(mols)}}
+    if stale is not None:       # the initialisation scenario: only the population on the stack, `stale` records left by an earlier run
+        it.init_state["stack"] = (Vec("pop"),)
+        it.init_state["heap"]["reaction"] = tuple(stale)
     return it.run(), home_buf, mols
 
 
@@ -144,6 +149,7 @@ def run(ctx):
     ctx.guard("C20.R2", "stack effect", lambda: r2_stack_effect(ctx))
     ctx.guard("C20.R1", "updates", lambda: r1_updates(ctx))
     ctx.guard("C20.R4", "guards", lambda: r4_guards(ctx))
+    ctx.guard("C20.R5", "initialisation", lambda: r5_init(ctx))
 
 
 def r1_updates(ctx):
@@ -180,10 +186,12 @@ def r1_updates(ctx):
                     ke[a], ke[b] = kes
                     scen.append(("reactants i%d,i%d, kinetic %s, product %s" % (a, b, kes, pv), [a, b], ke, [pop[a], pop[b]], [indiv("p", pv)], 8.0))
         for (label, ridx, ke, reactants, products, buf) in scen:
-            paths, home_buf, mols = evaluate(F, fn, me, pop, ke, reactants, products, buf, fields_mol)
-            total += 1
-            check_paths(paths, home_buf, pop, mols, buf, label, fields_mol, bad, ridx)
-        ctx.check(not bad, "C20.R1", fn.key, "energy-conserved-aligned-consumed", "%s: the update %s" % (bad[0] if bad else ("", "")), detail="%d configurations" % len(scen), loc=fn.loc())
+            for best_delta in (0.0, 1.5):
+                lab = label if not best_delta else label + ", every record remembering a best %s below its current individual (after an accepted uphill move)" % best_delta
+                paths, home_buf, mols = evaluate(F, fn, me, pop, ke, reactants, products, buf, fields_mol, best_delta)
+                total += 1
+                check_paths(paths, home_buf, pop, mols, buf, lab, fields_mol, bad, ridx)
+        ctx.check(not bad, "C20.R1", fn.key, "energy-conserved-aligned-consumed", "%s: the update %s" % (bad[0] if bad else ("", "")), detail="%d configurations" % (2 * len(scen)), loc=fn.loc())
     ctx.count("reaction_configurations", total)
 
 
@@ -219,3 +227,53 @@ def equal_molecules(ctx, rule):
                 bad.append("%s %s" % (p.end, p.ret if p.end == "return" else ""))
         ctx.check(not bad, rule, fn.key, "equal-molecules-are-distinct-reactants",
                   "container [dup, dup, i2] (two molecules holding equal individuals), reactants = molecules 0 and 1: the update ends with %s - it locates reactants by VALUE equality (position(|i| i == &r)), so both resolve to index 0 and a valid run fails" % (bad[0] if bad else ""), loc=fn.loc())
+
+
+def r5_init(ctx):
+    """the base case of `one molecule record per individual, in the same order`: ChemicalReactionInit::execute leaves
+    exactly one fresh record (configured kinetic energy, no hits, remembering its individual) per individual of the
+    current population, in order - also when records of an earlier initialisation are still in the container - and
+    leaves the population stack alone"""
+    F = ctx.facts
+    fields_mol = {f["name"]: f["i"] for f in F.adt(MOL)["variants"][0]["fields"]}
+    comp = CRO + "ChemicalReactionInit"
+    fn = F.method(comp, "execute", COMP)
+    flds = {f["name"]: f["i"] for f in F.adt(comp)["variants"][0]["fields"]}
+    me = Sym("self", {flds["kinetic_energy"]: 7.5, flds["buffer"]: 3.0})
+    bad = []
+    n = 0
+    for size in range(0, 4):
+        for nstale in (0, 2):
+            pop = [indiv("i%d" % i, 5.0 + i) for i in range(size)]
+            stale = []
+            for j in range(nstale):
+                vals = [None] * 4
+                vals[fields_mol["kinetic_energy"]] = 99.0
+                vals[fields_mol["num_hit"]] = 40 + j
+                vals[fields_mol["min_hit"]] = 4
+                vals[fields_mol["best"]] = indiv("old%d" % j, 1.0)
+                stale.append(Agg("adt", MOL, "Molecule", vals))
+            paths, home_buf, _ = evaluate(F, fn, me, pop, [0.0] * size, [], [], 3.0, fields_mol, stale=stale)
+            n += 1
+            label = "population of %d, %d records left by an earlier initialisation" % (size, nstale)
+            for p in paths:
+                if p.end != "return" or not (isinstance(p.ret, Agg) and p.ret.variant == "Ok"):
+                    bad.append((label, "does not complete (%s %s)" % (p.end, p.ret if p.end == "return" else "")))
+                    continue
+                st = [getattr(x, "vid", repr(x)) for x in p.mstate.get("stack", ())]
+                if st != ["pop"] or [getattr(x.fields[0], "tag", "?") for x in p.mstate["heap"]["pop"]] != ["s:i%d" % i for i in range(size)]:
+                    bad.append((label, "changes the population stack (%s)" % st))
+                    continue
+                recs = p.mstate["heap"].get("reaction", ())
+                got = []
+                for m in recs:
+                    if not (isinstance(m, Agg) and m.name == MOL):
+                        got.append("?")
+                        continue
+                    b = m.fields[fields_mol["best"]]
+                    got.append((getattr(b.fields[0], "tag", "?") if isinstance(b, Agg) else "?", m.fields[fields_mol["kinetic_energy"]], m.fields[fields_mol["num_hit"]], m.fields[fields_mol["min_hit"]]))
+                want = [("s:i%d" % i, 7.5, 0, 0) for i in range(size)]
+                if got != want:
+                    bad.append((label, "leaves the records %s; expected one fresh record per individual, in order: %s" % (got, want)))
+    ctx.count("init_configurations", n)
+    ctx.check(not bad, "C20.R5", fn.key, "one-fresh-record-per-individual", "%s: the initialisation %s" % (bad[0] if bad else ("", "")), detail="%d configurations" % n, loc=fn.loc())
